@@ -93,7 +93,9 @@ pub fn main(args: &[String]) -> i32 {
         Some("readall") => {
             // open `archive` (rle-hex text in a file) with the Rust reader and compare every `namehex=datarle` of `expfile`
             let arch_text = std::fs::read_to_string(&args[1]).unwrap_or_default();
-            let bytes = crate::c18_wdt::unrle(arch_text.trim());
+            let mut bytes = crate::c18_wdt::unrle(arch_text.trim());
+            // optional: the archive behind a foreign prefix of that many bytes (a multiple of 512: where the header search looks)
+            if let Some(pre) = args.get(3).and_then(|s| s.parse::<usize>().ok()) { let mut v: Vec<u8> = (0..pre).map(|i| (i * 31 % 251) as u8 | 0x80).collect(); v.extend_from_slice(&bytes); bytes = v; }
             let tmp = tempfile::NamedTempFile::new().expect("tmp");
             std::fs::write(tmp.path(), &bytes).ok();
             let mut a = match Archive::open(tmp.path()) { Ok(a) => a, Err(e) => { println!("FAIL open: {e}"); return 1; } };
